@@ -208,7 +208,14 @@ class Obligations:
             G2 = G - set(moved)
             return [(succ, (False, G2, K, P))]
         if callee_matches(t, spec.acquire):
+            rty = body.tys[body.locals[dl]["ty"]] if dl is not None else {}
+            if rty.get("adt") == "std::result::Result" and dl is not None:
+                return [(succ, (O, G, K, P | {(dl, True, False)}))]
             return [(succ, (True, G, K, P))]
+        if dl is not None and O:
+            rty = body.tys[body.locals[dl]["ty"]]
+            if rty.get("adt") in spec.guard_types and any(op_place(a) is not None for a in t["args"]):
+                return [(succ, (False, G | {dl}, K, P))]
         if moved:
             G = G - set(moved)
             # a consuming call that is not a discharge hands the obligation back, unless the callee itself always releases
